@@ -450,6 +450,30 @@ def insitu_case(ctx, idx, rng):
             ptn.calculate_ground_state_local_twosite(H, psi, 1, numiter_lanczos=4)
 
 
+def soak_case(ctx, idx, rng):
+    """The repository's own test-suite with the orthonormalisation oracle attached to MPS.orthonormalize and MPO.orthonormalize (dense reference where
+    the object is within dense reach)."""
+    from .. import soak
+    n = [0, 0]
+
+    def make(is_mpo):
+        def around(orig, self, mode='left'):
+            dim = len(self.qd) ** ((2 if is_mpo else 1) * len(self.A))
+            if dim > (4096 * 16 if is_mpo else 8192) or refs.mpo_invariant(self) is not None if is_mpo else (dim > 8192 or refs.mps_invariant(self) is not None):
+                n[1] += 1
+                return orig(self, mode)
+            old = snapshot(self, is_mpo)
+            nrm = orig(self, mode)
+            n[0] += 1
+            orth_post(ctx, old, self, nrm, mode, is_mpo, in_situ=True)
+            return nrm
+        return around
+    ctx.case(('soak', 'repository-test-suite'), sample={'functions_monitored': ['MPS.orthonormalize', 'MPO.orthonormalize']})
+    soak.run_suite(ctx, [('pytenet.mps.MPS.orthonormalize', make(False)), ('pytenet.mpo.MPO.orthonormalize', make(True))])
+    ctx.event('soak_orthonormalize_calls_checked', n[0])
+    ctx.event('soak_orthonormalize_calls_beyond_dense_reach', n[1])
+
+
 SPEC = {
     'id': 'C01',
     'rule': ('MPS: L 1..6, d 1..4 (d^L <= 4096), bond profiles {all 1, random, maximal, over-complete, disjoint sectors (zero state), '
@@ -469,6 +493,7 @@ SPEC = {
         Workload('large', large_case, quick=60, thorough=6000),
         Workload('long-chain', long_chain_case, quick=40, thorough=3000),
         Workload('insitu', insitu_case, quick=80, thorough=10000),
+        Workload('suite-soak', soak_case, quick=0, thorough=1, shardable=False),
     ],
     'shards': {'quick': 1, 'thorough': 16},
     'assumptions': ['dense contraction in pvm/refs.py; tolerance 1e-10 relative (1e-4 for single-precision tensors)'],
